@@ -206,38 +206,80 @@ def report(ctx, res, write_ev=True):
 
 
 def acquire_run_slot(tier='quick'):
-    """Machine-wide semaphore: at most VERIF_SLOTS (default 2) vcheck runs at a time, so that the
-    tier deadlines and the E3 watchdogs measure the check and not the neighbours (several checks are
-    routinely run side by side while the machinery is being developed; each uses all 16 cores).
-    A single run never waits.  The returned file object keeps the lock until the process exits."""
+    """Machine-wide FIFO semaphore: at most VERIF_SLOTS (default 4) vcheck runs at a time, plus one slot
+    that only quick-tier runs may take, so that tier deadlines and the E3 watchdogs measure the check and
+    not a dozen neighbours (several checks are routinely run side by side while the machinery is being
+    developed; each uses all 16 cores).  Waiters queue by arrival time (ticket files), dead waiters'
+    tickets are discarded.  A single run never waits.  The returned file object keeps the lock until
+    the process exits."""
     import fcntl
-    n = int(os.environ.get('VERIF_SLOTS', '2'))
+    n = int(os.environ.get('VERIF_SLOTS', '4'))
     if n <= 0:
         return None
-    if tier == 'quick':
-        n += 1          # one extra slot that only quick-tier runs may take, so they do not starve behind 20-minute runs
     d = '/var/tmp/squid-verif-slots'
+    q = os.path.join(d, 'queue')
     try:
-        os.makedirs(d, exist_ok=True)
+        os.makedirs(q, exist_ok=True)
         os.chmod(d, 0o1777)
+        os.chmod(q, 0o1777)
     except OSError:
         pass
-    waited = 0
-    while True:
-        for i in range(n):
+    me = '%020d-%d-%s' % (time.time_ns(), os.getpid(), tier)
+    mine = os.path.join(q, me)
+    try:
+        open(mine, 'w').close()
+    except OSError:
+        return None
+
+    def try_slots(idx):
+        for i in idx:
             try:
                 f = open(os.path.join(d, 'slot%d.lock' % i), 'a+')
             except OSError:
-                return None
+                continue
             try:
                 fcntl.flock(f, fcntl.LOCK_EX | fcntl.LOCK_NB)
-                if waited:
-                    print('# vcheck: waited %d s for a run slot' % waited, file=sys.stderr)
                 return f
             except OSError:
                 f.close()
-        time.sleep(1)
-        waited += 1
+        return None
+
+    t0 = time.time()
+    try:
+        while True:
+            live = []
+            for t in sorted(os.listdir(q)):
+                try:
+                    pid = int(t.split('-')[1])
+                    os.kill(pid, 0)
+                    live.append(t)
+                except (ValueError, IndexError):
+                    pass
+                except ProcessLookupError:
+                    try:
+                        os.unlink(os.path.join(q, t))
+                    except OSError:
+                        pass
+                except PermissionError:
+                    live.append(t)
+            f = None
+            if not live or live[0] == me:
+                f = try_slots(range(n))
+            if f is None and tier == 'quick':
+                quick = [t for t in live if t.endswith('-quick')]
+                if not quick or quick[0] == me:
+                    f = try_slots([n])
+            if f is not None:
+                waited = int(time.time() - t0)
+                if waited >= 2:
+                    print('# vcheck: waited %d s for a run slot' % waited, file=sys.stderr)
+                return f
+            time.sleep(0.5)
+    finally:
+        try:
+            os.unlink(mine)
+        except OSError:
+            pass
 
 
 def main(argv=None):
